@@ -31,7 +31,7 @@ python3 - "$sd" "$P" "$M$SUF" "$t_with" "$d_with" "$d_without" "$rc" "$detail" "
 import json,sys,os
 sd,P,M,tw,dw,dwo,rc,detail,tier=sys.argv[1:10]
 notes=open(sd+'/notes.md').read() if os.path.exists(sd+'/notes.md') else ''
-json.dump({"property":P,"id":P+"-"+M,"source":"independent sub-agent (second round: asked for narrow corner cases) given only the property text and a scratch worktree",
+json.dump({"property":P,"id":P+"-"+M,"source":"independent sub-agent (later rounds: asked for narrow corner cases) given only the property text and a scratch worktree",
  "needs_to_manifest":notes[:1500],
  "confirmed":{"package_tests_with_change":tw,"demo_with_change":dw,"demo_without_change":dwo},
  "our_check":{"command":f"./check.sh {P} {tier}","exit":int(rc),"caught":int(rc)==1,"first_violation_line":detail}},
